@@ -118,6 +118,8 @@ TarNameClauses(f, t, dotted, skip) ==
            THEN {"C04.names_relative"} ELSE {})
      \cup (IF \E i \in real : \E j \in 1..Len(toks(i)) : toks(i)[j] = ".." THEN {"C04.no_dotdot"} ELSE {})
      \cup (IF \E i \in real : (t[i].type = "5") # HasSuffix(nm(i), "/") /\ Norm(nm(i)) # <<>> THEN {"C04.dir_trailing_slash"} ELSE {})
+     \* a member that is not a regular file has no body: a non-zero size makes readers skip into the next header
+     \cup (IF \E i \in real : t[i].type # "0" /\ t[i].size # 0 THEN {"C04.nonregular_member_has_no_size"} ELSE {})
      \cup (IF \E i \in real : \E a \in Ancestors(Norm(nm(i))) :
                 (\E j \in real : Norm(nm(j)) = a) /\ ~(\E j \in real : j < i /\ Norm(nm(j)) = a)
            THEN {"C04.parents_first"} ELSE {})
@@ -285,6 +287,8 @@ StampClauses(f, c, tree, evs) ==
   ELSE LET ok == AllowedStamps(c, tree)
            okStr == { StampStr(x) : x \in ok }
            numeric == { evs[i].mt : i \in Idx(evs, LAMBDA e : e.ev \in {"outer", "tar", "slot", "rpmfile"}) }
+                      \cup { evs[i].atime : i \in Idx(evs, LAMBDA e : e.ev = "tar") }
+                      \cup { evs[i].ctime : i \in Idx(evs, LAMBDA e : e.ev = "tar") }
            structs == { evs[i].value : i \in Idx(evs, LAMBDA e : e.ev = "struct" /\ HasPrefix(e.key, "gz_mtime:")) }
            metas == (IF HasMeta(evs, "hdr", "1006") THEN SeqToSet(MetaVals(evs, "hdr", "1006")) ELSE {})
                     \cup (IF f = "archlinux" /\ HasMeta(evs, "pkginfo", "builddate") THEN SeqToSet(MetaVals(evs, "pkginfo", "builddate")) ELSE {})
